@@ -86,6 +86,30 @@ def loopy_kernel(which, n):
                  lp.GlobalArg("z", dtype=np.float64, shape=(n,),
                               is_input=False)],
                 name="axpb", lang_version=(2018, 2))
+        elif which == "twoout":
+            k = lp.make_kernel(
+                f"{{[i]: 0<=i<{n}}}", ["o1[i] = 2*a[i]", "o2[i] = a[i] + 1"],
+                [lp.GlobalArg("a", dtype=np.float64, shape=(n,)),
+                 lp.GlobalArg("o1", dtype=np.float64, shape=(n,),
+                              is_input=False),
+                 lp.GlobalArg("o2", dtype=np.float64, shape=(n,),
+                              is_input=False)],
+                name="twoout", lang_version=(2018, 2))
+        elif which == "duo":
+            # one translation unit, two entrypoints with the same signature
+            ka = lp.make_kernel(
+                f"{{[i]: 0<=i<{n}}}", "out[i] = 2*a[i]",
+                [lp.GlobalArg("a", dtype=np.float64, shape=(n,)),
+                 lp.GlobalArg("out", dtype=np.float64, shape=(n,),
+                              is_input=False)],
+                name="duo_a", lang_version=(2018, 2))
+            kb = lp.make_kernel(
+                f"{{[j]: 0<=j<{n}}}", "out[j] = 3*a[j]",
+                [lp.GlobalArg("a", dtype=np.float64, shape=(n,)),
+                 lp.GlobalArg("out", dtype=np.float64, shape=(n,),
+                              is_input=False)],
+                name="duo_b", lang_version=(2018, 2))
+            k = lp.merge([ka, kb])
         else:
             raise ValueError(which)
         _KERNELS[key] = k
@@ -300,6 +324,10 @@ def apply_step(step, vals, shared=None, salt=0):
         if p["knl"] == "twice":
             bindings = {"a": a[0]}
             out = "out"
+        elif p["knl"] == "twoout":
+            return call_loopy(knl, {"a": a[0]}, "twoout")[p["out"]]
+        elif p["knl"] == "duo":
+            return call_loopy(knl, {"a": a[0]}, p["entry"])["out"]
         else:
             bindings = {"x": a[0], "y": a[1]}
             if p.get("rev"):
@@ -307,6 +335,10 @@ def apply_step(step, vals, shared=None, salt=0):
             out = "z"
         return call_loopy(knl, bindings, p["knl"])[out]
     if op == "named":
+        if p.get("sibling"):
+            # a second entry of the same shape and dtype next to it
+            return pt.make_dict_of_named_arrays(
+                {p["name"]: a[0], p["name"] + "_s": -a[0]})[p["name"]]
         return pt.make_dict_of_named_arrays({p["name"]: a[0]})[p["name"]]
     if op == "tagged":
         return a[0].tagged(htags.make_tag(p["tag"]))
@@ -681,9 +713,18 @@ class _G:
                              and v.shape[0] > 0)
             if cand is None:
                 return None
-            if rng.random() < 0.5:
+            kk = rng.random()
+            if kk < 0.3:
                 return self.try_step({"op": "loopy", "args": [cand],
                                       "p": {"knl": "twice"}})
+            if kk < 0.45:
+                return self.try_step({"op": "loopy", "args": [cand],
+                                      "p": {"knl": "twoout",
+                                            "out": rng.choice(["o1", "o2"])}})
+            if kk < 0.6 and self.profile == "any":
+                return self.try_step({"op": "loopy", "args": [cand],
+                                      "p": {"knl": "duo", "entry": rng.choice(
+                                          ["duo_a", "duo_b"])}})
             other = self.pick(lambda v: v.ndim == 1 and v.dtype == np.float64
                               and v.shape == self.vals[cand].shape)
             return self.try_step({"op": "loopy", "args": [cand, other],
@@ -691,7 +732,8 @@ class _G:
                                         "rev": rng.random() < 0.5}})
         if k == "named":
             return self.try_step({"op": "named", "args": [a],
-                                  "p": {"name": rng.choice(["x", "y", "res"])}})
+                                  "p": {"name": rng.choice(["x", "y", "res"]),
+                                        "sibling": rng.random() < 0.5}})
         if k in ("tagged", "axis_tagged", "untagged") \
                 and self.profile == "codegen":
             from pytato.array import InputArgumentBase
